@@ -13,7 +13,7 @@ use std::collections::VecDeque;
 pub fn prop() -> Prop {
   Prop {
     id: "C05",
-    rule: "case = (operator in merge_all(n)/concat_all/flatten/flat_map/concat_map, local or thread-safe build; outer = hot input or cold list emitting up to 5 selections among k <= 4 inner observables; each inner cold-synchronous (0..2 tagged items then complete or error) or hot (driven later by the script); n in 1..k+1; script of <= 14 events interleaving outer items/terminals with inner items/completions/errors). Every inner is wrapped in a subscription tracker (defer + finalize). \
+    rule: "case = (operator in merge_all(n)/concat_all/flatten/flat_map/concat_map, local or thread-safe build; outer = hot input or cold list emitting up to 5 selections (one case in eight: 100..320) among k <= 4 inner observables; each inner cold-synchronous (0..2 tagged items then complete or error) or hot (driven later by the script); n in 1..k+1, occasionally 255 / 256 / 65536 / 65537 / 2^32 / usize::MAX-1; script of <= 14 events interleaving outer items/terminals with inner items/completions/errors). Every inner is wrapped in a subscription tracker (defer + finalize). \
            Oracle: (i) delivered (step, notification) list == active-set/FIFO-queue simulation; (ii) each tagged inner item at most once and in per-inner order, for concat in outer order, live inner subscriptions <= n at every moment; (iii) no panic and no self-deadlock. Non-trivial: an inner waited in the queue and was started by another inner's completion. Distinct by hash(case).",
     assumptions: &[
       "an inner subscribed to a hot input only sees events sent after its subscription (a subject that terminated while the inner was queued never completes that inner)",
@@ -40,7 +40,9 @@ struct Case {
 
 fn gen_case(c: &mut dyn Choices) -> Case {
   let k = 1 + c.pick(4);
-  let op = match c.pick(10) {
+  let op = match c.pick(11) {
+    // limits far beyond the number of inners (documented as an upper bound)
+    10 => Flat::MergeAll(*c.one_of(&[65536usize, 65537, 255, 256, 1 << 32, usize::MAX - 1])),
     0..=1 => Flat::MergeAll(1 + c.pick(2)),
     2..=3 => Flat::MergeAll(1 + c.pick(k + 1)),
     4..=5 => Flat::ConcatAll,
@@ -113,6 +115,18 @@ fn gen_case(c: &mut dyn Choices) -> Case {
     None => Node::Src(Src::Hot(0)),
   };
   let threads = c.pick(3) == 0;
+  // (appended picks, recorded tapes keep their meaning) one case in eight is "many": a long cold outer
+  // (100..320 selections) so that a long queue builds up behind a hot head and then drains in a cascade
+  let (outer, cold_outer) = if c.pick(8) == 7 {
+    let n = 100 + c.pick(220);
+    let head = c.pick(k);
+    let filler = inners.iter().position(|i| matches!(i, Inner::Cold(_))).unwrap_or(c.pick(k));
+    let mut sel = vec![head];
+    sel.extend((0..n).map(|i| if i % 37 == 36 { head } else { filler }));
+    (Node::Src(Src::FromIter(sel.iter().map(|j| V::I(*j as i64)).collect())), Some(sel))
+  } else {
+    (outer, cold_outer)
+  };
   let pcase = PCase {
     node: Node::Flat(op, Box::new(outer), inner_nodes),
     kinds: vec![IKind::Subject; n_inputs],
@@ -297,7 +311,7 @@ fn run_case(c: &mut dyn Choices, ctx: &Ctx) -> Outcome {
       let items: Vec<i64> = act.iter().filter_map(|(_, e)| if let Ev::N(v) = e { Some(to_i(v)) } else { None }).collect();
       let mut inv: Option<String> = None;
       // hot items are unique by construction: never twice unless the same hot inner is subscribed twice
-      if lim != usize::MAX && tr.counters.max_live > lim as i64 {
+      if lim != usize::MAX && (tr.counters.max_live.max(0) as u128) > (lim as u128) {
         inv = Some(format!("limit: {} inner observables subscribed at once, limit {}", tr.counters.max_live, lim));
       }
       // per-inner order of hot items (sequence numbers increase)
